@@ -246,3 +246,24 @@ func errName(err error) string {
 	}
 	return err.Error()
 }
+
+// BlockedReport lists, for diagnostics, every live task that is not runnable.
+func (w *W) BlockedReport() string {
+	if w.Free {
+		return ""
+	}
+	var sb strings.Builder
+	for _, t := range w.Tasks() {
+		if len(t.ID) > 40 {
+			continue
+		}
+		fmt.Fprintf(&sb, "\n  %s [%s] %s at %s api=%q", t.ID, t.Site, t.State, t.ParkSite, t.API)
+		if t.BlockedOnOwner != "" {
+			fmt.Fprintf(&sb, " waits for mutex taken at %s by %s", t.BlockedOnOwnerSite, t.BlockedOnOwner)
+		}
+		if len(t.Held) > 0 {
+			fmt.Fprintf(&sb, " holds %v", t.Held)
+		}
+	}
+	return sb.String()
+}
